@@ -82,6 +82,7 @@ class Driver:
 
         self.step_count: int = 0
         self.max_steps: int = 0
+        self._startup_done: bool = False
 
         self.file_manager: Final = ObserverManager()
 
@@ -106,7 +107,9 @@ class Driver:
 
         self.max_steps = self.step_count + steps
 
-        if self.step_count == 0:
+        if self.step_count == 0 and not self._startup_done:
+            self._startup_done = True
+
             if self.default_logger:
                 self.default_logger.write_header()
 
